@@ -31,6 +31,7 @@ type Param struct {
 	Opt    bool    `json:"opt"`
 	Group  int     `json:"group"`
 	Soft   bool    `json:"soft"`
+	NS     int     `json:"ns"` // group: consume through the declared named slice type NS<ty> (1) or NSB<ty> (2), ty < 3, instead of []T<ty>
 	Fields []Param `json:"fields"`
 }
 
@@ -41,6 +42,7 @@ type Result struct {
 	Group   int      `json:"group"`
 	Flatten bool     `json:"flatten"`
 	As      []int    `json:"as"`
+	NS      int      `json:"ns"` // decorator's group result: return the declared named slice type NS<ty> (1) or NSB<ty> (2), ty < 3
 	Fields  []Result `json:"fields"`
 }
 
@@ -190,12 +192,30 @@ func nameStr(n int) string {
 }
 func groupStr(g int) string { return fmt.Sprintf("g%d", g) }
 
+// groupSliceType: []T<ty>, or the declared named slice type NS<ty> over the same element
+func groupSliceType(ty int, ns int) reflect.Type {
+	if ns == 1 && ty < len(namedSlices) {
+		return namedSlices[ty]
+	}
+	if ns == 2 && ty < len(namedSlicesB) {
+		return namedSlicesB[ty]
+	}
+	return reflect.SliceOf(palette[ty])
+}
+
+func nsIf(ns int, cond bool) int {
+	if cond {
+		return ns
+	}
+	return 0
+}
+
 func paramType(p Param) reflect.Type {
 	switch p.K {
 	case "single":
 		return palette[p.Ty]
 	case "group":
-		return reflect.SliceOf(palette[p.Ty])
+		return groupSliceType(p.Ty, p.NS)
 	case "obj":
 		fields := []reflect.StructField{{Name: "In", Type: inType, Anonymous: true}}
 		for i, f := range p.Fields {
@@ -232,7 +252,7 @@ func resultType(r Result, decorator bool) reflect.Type {
 		return palette[r.Ty]
 	case "group":
 		if r.Flatten || decorator {
-			return reflect.SliceOf(palette[r.Ty])
+			return groupSliceType(r.Ty, nsIf(r.NS, decorator))
 		}
 		return palette[r.Ty]
 	case "obj":
@@ -343,7 +363,7 @@ func mkResult(r Result, decorator bool, fn, exec int, lens []int, slot *int) ref
 		*slot++
 		if r.Flatten || decorator {
 			n := lenAt(lens, s)
-			sl := reflect.MakeSlice(reflect.SliceOf(palette[r.Ty]), 0, n)
+			sl := reflect.MakeSlice(groupSliceType(r.Ty, nsIf(r.NS, decorator)), 0, n)
 			for i := 0; i < n; i++ {
 				sl = reflect.Append(sl, mkValue(palette[r.Ty], &Prov{fn, exec, s, i}))
 			}
